@@ -350,3 +350,7 @@ mod tests {
         let _ = u32::decode(&bytes, 0);
     }
 }
+
+#[cfg(kani)]
+#[path = "/verif/kani/engine/opcode_args.rs"]
+mod verif_kani;
